@@ -79,11 +79,12 @@ impl StrSuffix {
         buf[..prefix.len()].copy_from_slice(prefix);
         let suffix = self.bytes_prefix();
         buf[prefix.len()..(prefix.len() + suffix.len())].copy_from_slice(suffix);
+        // `prefix` may be a lone continuation byte or the start of a sequence whose remaining bytes
+        // were already consumed, there is no character to restore then
         str::from_utf8(&buf)
-            .expect("UTF-8 string")
-            .chars()
-            .next()
-            .expect("char")
+            .ok()
+            .and_then(|s| s.chars().next())
+            .unwrap_or(char::REPLACEMENT_CHARACTER)
     }
 
     fn suffix(&self, index: usize) -> &Self {
